@@ -21,13 +21,14 @@ ACT2STEP = {
     "THDeliver": ("tohost", "deliver"), "THDrop": ("tohost", "drop"), "THCorrupt": ("tohost", "corrupt"),
     "THDup": ("tohost", "dup"), "TNDeliver": ("toncp", "deliver"), "TNDrop": ("toncp", "drop"),
     "TNCorrupt": ("toncp", "corrupt"), "TNDup": ("toncp", "dup"), "HCancelAny": ("hcancel", 1),
-    "THHold": ("tohost", "hold"), "TNHold": ("toncp", "hold"), "ReleaseH": ("hrelease",), "ReleaseN": ("nrelease",),
+    "THHold": ("tohost", "hold"), "TNHold": ("toncp", "hold"), "ReleaseH": ("hrelease",), "ReleaseN": ("nrelease",), "HArm": ("harm",),
 }
+WF_ALPHABET = (("toncp", "deliver"), ("tohost", "deliver"), ("tohost", "drop"), ("toncp", "drop"), ("htick",), ("harm",))
 
 
-def mc_consts(maxatt, win, hp, np_, faults, cancel, starts="{0, 62}", holds=0, span=2):
+def mc_consts(maxatt, win, hp, np_, faults, cancel, starts="{0, 62}", holds=0, span=2, wf=0):
     return {"MaxAtt": maxatt, "Win": str(win), "HPayloads": str(hp), "NPayloads": str(np_), "MaxFaults": str(faults),
-            "Cap": "3", "StartPairs": starts, "MaxCancel": str(cancel), "MaxHolds": str(holds), "HoldSpan": str(span)}
+            "Cap": "3", "StartPairs": starts, "MaxCancel": str(cancel), "MaxHolds": str(holds), "HoldSpan": str(span), "MaxWF": str(wf)}
 
 
 def sig(meta, v, tr):
@@ -57,8 +58,10 @@ def random_schedule(rng, n):
             sched.append(("htick",))
         elif r < 0.98:
             sched.append(("ntick",))
-        else:
+        elif r < 0.99:
             sched.append(("hcancel", rng.randint(1, 40)))
+        else:
+            sched.append(("harm",))
     return sched
 
 
@@ -78,13 +81,18 @@ def run(ctx: Ctx):
                         constants=mc_consts(maxatt, win, hp, np_, fl, cn, *(run_[6:7] or ("{0, 62}",)), holds=holds),
                         invariants=MCINV, properties=props, constraints=("LineBound",), required_actions=(tuple(a for a in req if np_ or a not in ("NSubmit", "NTimer"))) + (("HNext", "HCancel") if hp > 1 and cn else ()) + (("ReleaseH", "ReleaseN") if holds else ()),
                         heap="20g", timeout=3000)
+    # the host's transport may raise out of a DATA write (first transmission or retransmission)
+    for win, hp, np_, fl in ((1, 2, 0, 2), (2, 3, 0, 1)) if ctx.quick else ((1, 3, 0, 2), (2, 3, 1, 2), (3, 3, 0, 2)):
+        ctx.model_check("AshLink", f"MC_AshLink_W{win}_{hp}_{np_}_F{fl}_WF", constants=mc_consts(maxatt, win, hp, np_, fl, 0, "{0}", wf=1),
+                        invariants=MCINV, properties=props, constraints=("LineBound",), required_actions=("HSubmit", "HTimer", "HResume", "HArm"),
+                        heap="20g", timeout=3000)
     jobs, metas = [], []
     # (1) spec -> code: TLC-simulated behaviours, environment actions replayed on the real host
     nsim = 400 if ctx.quick else 4000
     for win in (1, 2, 3):
         simdir = ctx.workdir / f"sim{win}"
         simdir.mkdir()
-        ctx.model_check("AshLink", f"SIM_AshLink_W{win}", constants=mc_consts(maxatt, win, 3, 3, 3, 1, "{0}", holds=1),
+        ctx.model_check("AshLink", f"SIM_AshLink_W{win}", constants=mc_consts(maxatt, win, 3, 3, 3, 1, "{0}", holds=1, wf=1),
                         invariants=MCINV, constraints=("LineBound",), simulate=f"file={simdir}/b,num={nsim}", depth=45,
                         workers=1, coverage=False)
         for f in sorted(simdir.iterdir()):
@@ -104,6 +112,16 @@ def run(ctx: Ctx):
                 cancel = (3, 1) if (hash(fa) % 5 == 0) else None
                 jobs.append(("policy", (win, nh, nn, list(fa), cancel)))
                 metas.append({"src": "policy", "win": win, "nh": nh, "nn": nn, "faults": list(fa), "cancel": cancel})
+    # (2b) one failing DATA write: every placement of it among every short order of deliveries, losses and timer expiries
+    L = 4 if ctx.quick else 5
+    for win in ((1, 2) if ctx.quick else (1, 2, 3)):
+        for mid in itertools.product(WF_ALPHABET, repeat=L):
+            if mid.count(("harm",)) != 1:
+                continue
+            for pre in ((("hsubmit",),), (("hsubmit",), ("hsubmit",))):
+                sched = list(pre) + list(mid) + [("hsubmit",), ("toncp", "deliver"), ("tohost", "deliver"), ("hsubmit",)]
+                jobs.append(("sched", (win, sched)))
+                metas.append({"src": "writefail", "win": win, "schedule": sched})
     # (3) long random runs (wrap the 3-bit numbers many times)
     rng = ctx.rng
     for _ in range(120 if ctx.quick else 2500):
